@@ -336,16 +336,22 @@ def part_pairs(args):
 
 
 def part_change(args):
-    """two Subscribe datagrams for one eventgroup and counter inside one send-collection window whose verdicts
-    differ because something changed in between (the listener's policy, the announcer being started): both
-    answers must leave, in order"""
+    """two datagrams from one sender inside one send-collection window, the first with a Subscribe whose answer is
+    still being collected when the second arrives; in between or with the second something changes: the listener's
+    policy, the announcer being started, or the second datagram reveals that the sender rebooted (on either
+    channel, with or without a Subscribe of its own).  Every Subscribe keeps its one answer, in order."""
     s, s2, scenario, gap = args
     res = []
     name = "not-started" if scenario == "start-between" else "running"
     loop, seam, prot, log, listeners, specs, egs = build_world(name, s, s2, scenario == "reject-then-accept", C)
     try:
         e1_ = (s, 1, 1, 6, 0, 3, 1, 0)
-        e2_ = e1_
+        ent2 = entry_tuple(e1_)
+        second = dict(session=2, multicast=False, entries=None)
+        if scenario == "reboot-evidence-multicast-empty":
+            prot.datagram_received(refcodec.sd_message(5, []), CL, True)  # the sender is known on the multicast channel
+            loop.run_until(loop.time() + 4 * C)
+            prot.transport.sent.clear()
         t0 = loop.time()
         prot.datagram_received(refcodec.sd_message(1, [entry_tuple(e1_)]), CL, False)
         if gap:
@@ -356,15 +362,22 @@ def part_change(args):
         elif scenario == "accept-then-reject":
             listeners[0].reject.add(6)
             # another endpoint: a new subscription (a refresh of the accepted one would not ask the listener)
-            e2_ = (s, 1, 1, 6, 0, 3, 1, 0)
+            ent2 = ent2[:6] + ((refcodec.v4("192.0.2.92", 4100),), ())
             want = [3, 0]
-        else:
+        elif scenario == "start-between":
             prot.announcer.start()
             want = [0, 3]
-        ent2 = entry_tuple(e2_)
-        if scenario == "accept-then-reject":
-            ent2 = ent2[:6] + ((refcodec.v4("192.0.2.92", 4100),), ())
-        prot.datagram_received(refcodec.sd_message(2, [ent2]), CL, False)
+        elif scenario == "reboot-evidence-subscribe":
+            second["session"] = 1  # reboot flag set, session id not increased: the sender rebooted
+            want = [3, 3]
+        elif scenario == "reboot-evidence-empty":
+            second.update(session=1, entries=[])
+            want = [3]
+        else:
+            second.update(session=5, entries=[], multicast=True)
+            want = [3]
+        ents = [ent2] if second["entries"] is None else second["entries"]
+        prot.datagram_received(refcodec.sd_message(second["session"], ents), CL, second["multicast"])
         loop.run_until(t0 + 4 * C)
         acks = []
         for t, it, d, addr in prot.transport.sent:
@@ -374,8 +387,8 @@ def part_change(args):
         case = dict(change=scenario, gap=gap, sids=(s, s2))
         if got != want:
             disc = "missing" if len(got) < len(want) else ("extra" if len(got) > len(want) else "verdict")
-            res.append(("answer", f"{disc}-verdict-changed-within-window",
-                        f"{scenario}, second Subscribe {gap} s after the first (collection window {C}): SubscribeAck TTLs "
+            res.append(("answer", f"{disc}-{'reboot' if 'reboot' in scenario else 'verdict-changed'}-within-window",
+                        f"{scenario}, second datagram {gap} s after the first (collection window {C}): SubscribeAck TTLs "
                         f"on the wire {got}, expected {want}", case))
         if any(a[3] != CL for a in acks):
             res.append(("answer", "destination", f"acks {acks}", case))
@@ -399,7 +412,8 @@ def check(ctx):
     pj = [(name, s, s2, reject, col) for name in ("running", "three", "stopped", "wild-instance")
           for reject in (0, 1) for col in (0, C)]
     out2 = core.pmap(part_pairs, pj, 1) + core.pmap(part_shared, pj, 1)
-    out2 += core.pmap(part_change, [(s, s2, sc, gap) for sc in ("reject-then-accept", "accept-then-reject", "start-between")
+    out2 += core.pmap(part_change, [(s, s2, sc, gap) for sc in ("reject-then-accept", "accept-then-reject", "start-between", "reboot-evidence-subscribe",
+                                               "reboot-evidence-empty", "reboot-evidence-multicast-empty")
                                     for gap in (0, C / 4, C / 2, C - 2.0 ** -10)], 4)
     viols = []
     classes = {}
